@@ -7,7 +7,7 @@
 //! through `Sim` with `override-release-on-activation` yes/no on random press/release histories.
 
 use crate::core::rng::Rng;
-use crate::core::sim::{code_name, osc, render_hist, Ev, Sim};
+use crate::core::sim::{code_name, osc, render_hist, Ev, OutKind, Sim};
 use crate::core::{CaseOut, Check, Ctx};
 use crate::gen::hist;
 use kanata_keyberon::key_code::KeyCode;
@@ -436,7 +436,7 @@ fn run_pipeline(out: &mut CaseOut, ctx: &Ctx, r: u64) {
     let pool_codes: Vec<u16> = pool.iter().map(|i| cs[*i]).collect();
     let gaps: &[u32] = if r % 5 == 0 { &[0, 1, 1, 2, 3] } else { &[1, 1, 2, 3, 6] };
     let n_ev = 10 + rng.usize(ctx.tier.sel(30, 60));
-    let mut h = hist::consistent(&mut rng, &pool_codes, n_ev, gaps, false);
+    let mut h = hist::consistent(&mut rng, &pool_codes, n_ev, gaps, true);
     h.push(Ev::T(12));
     let mut sim = match Sim::new(&text) {
         Ok(s) => s,
@@ -460,6 +460,9 @@ fn run_pipeline(out: &mut CaseOut, ctx: &Ctx, r: u64) {
     let mut prev_removed: Mask = 0;
     let mut prev_added: Mask = 0;
     let mut reported = false;
+    let mut reported_rep = false;
+    let mut prev_ok = false;
+    let mut prev_stable = false; // no key was removed by release-on-activation in the last tick
     let mut judged_ok = true;
     let witness = |sim: &Sim, what: Value, h: &[Ev], text: &str| -> Value {
         let mut w = json!({"config": text, "history": render_hist(h), "trace": sim.trace_json()});
@@ -473,6 +476,61 @@ fn run_pipeline(out: &mut CaseOut, ctx: &Ctx, r: u64) {
     for (ei, e) in h.iter().enumerate() {
         let nticks = match e {
             Ev::T(n) => *n,
+            Ev::Rep(c) => {
+                // OS auto-repeat of a physically held key: answered at once, never queued
+                sim.apply(e);
+                out.inc("pipeline_repeat_inputs");
+                let outs: Vec<crate::core::sim::Out> = sim.last().to_vec();
+                let settled = pending.is_empty() && judged_ok && prev_ok && prev_stable;
+                let i = idx_of_code(*c);
+                let name_mask = |n: &str| -> Mask { names.iter().position(|x| x == n).map(|p| 1 << p).unwrap_or(0x8000) };
+                let mut rep_dev: Option<(&str, String)> = None;
+                for o in &outs {
+                    out.inc("pipeline_repeat_outputs");
+                    let m = name_mask(&o.name);
+                    let down = sim.os.keys_down.contains(&o.name);
+                    if o.kind != OutKind::Repeat {
+                        rep_dev = Some(("C13:pipeline:repeat-produced-other-output", format!("a Repeat input produced {}", o.short())));
+                    } else if !prev_stable || !pending.is_empty() {
+                        // the held keys changed since the last tick (queued event, or a key removed by
+                        // release-on-activation): the OS model lags until the next tick, not judged
+                        out.inc("pipeline_repeat_outputs_in_transient_not_judged");
+                    } else if !down && m & prev_removed & !prev_added != 0 {
+                        rep_dev = Some(("C13:pipeline:repeat-of-replaced-key", format!("repeat forwarded for {} which the active override replaced (it is up at the OS)", o.name)));
+                    } else if !down {
+                        rep_dev = Some(("C13:pipeline:repeat-of-up-key", format!("repeat forwarded for {} which is up at the OS", o.name)));
+                    }
+                }
+                if let (Some(i), true, None) = (i, settled, &rep_dev) {
+                    if !is_mod(i) && prev_removed & (1 << i) != 0 {
+                        // the physical key is the non-modifier of an active override
+                        out.inc("pipeline_repeats_during_active_override");
+                        // kanata chooses among all outputs any override of this key can have
+                        let possible: Mask = table.iter().filter(|o| o.in_key == i).fold(0, |m, o| m | mods_to_mask(o.out_mods) | (1 << o.out_key));
+                        let ok = outs.len() == 1 && name_mask(&outs[0].name) & prev_added != 0;
+                        if ok {
+                            out.inc("pipeline_repeats_forwarded_for_override_output");
+                        } else if outs.len() == 1 && name_mask(&outs[0].name) & possible != 0 {
+                            // down at the OS (checked above) and an output of another entry for this key
+                            out.inc("pipeline_repeats_forwarded_as_other_entry_output");
+                        } else if outs.is_empty() {
+                            rep_dev = Some(("C13:pipeline:repeat-not-forwarded", format!("repeat of {} while its override is active produced nothing; expected a repeat of one of {:?}", key_name(i), mask_names(prev_added))));
+                        } else {
+                            rep_dev = Some(("C13:pipeline:repeat-of-wrong-key", format!("repeat of {} while its override is active was forwarded as {:?}; expected one of {:?}", key_name(i), outs.iter().map(|o| o.short()).collect::<Vec<_>>(), mask_names(prev_added))));
+                        }
+                    } else if prev_removed == 0 && phys & (1 << i) != 0 {
+                        out.inc("pipeline_repeats_without_override");
+                    }
+                }
+                if let Some((sig, what)) = rep_dev {
+                    if !reported_rep {
+                        reported_rep = true;
+                        let prefix: Vec<Ev> = h[..=ei].to_vec();
+                        out.violate(sig, what, witness(&sim, json!({"observed": outs.iter().map(|o| o.short()).collect::<Vec<_>>(), "expected": format!("a repeat of a key that is down at the OS ({:?}); for the non-modifier of an active override one of {:?}", sim.os.keys_down, mask_names(prev_added)), "replaced_keys": mask_names(prev_removed)}), &prefix, &text));
+                    }
+                }
+                0
+            }
             other => {
                 sim.apply(other);
                 pending.push_back(other.clone());
@@ -520,12 +578,14 @@ fn run_pipeline(out: &mut CaseOut, ctx: &Ctx, r: u64) {
                     None => foreign = true,
                 }
             }
+            prev_stable = true;
             if roa {
                 if let Some(Ev::P(c)) = &consumed {
                     if let Some(i) = idx_of_code(*c) {
                         if !is_mod(i) && !k_list.contains(&i) {
                             // activated and released at once by override-release-on-activation
                             k_list.push(i);
+                            prev_stable = false;
                             out.inc("pipeline_release_on_activation_removals");
                         }
                     }
@@ -542,6 +602,7 @@ fn run_pipeline(out: &mut CaseOut, ctx: &Ctx, r: u64) {
                 }
             }
             out.inc("pipeline_ticks_judged");
+            prev_ok = acc.contains(&os) && !foreign && !os_foreign;
             if removed != 0 {
                 out.inc("pipeline_ticks_with_active_override");
                 if removed != prev_removed {
@@ -651,7 +712,7 @@ impl Check for C13Check {
         out
     }
     fn rule(&self) -> String {
-        "Pure part: one override table per case, written as configuration text and parsed by the real parser (256 seed-independent tables: every subset of the 8 modifiers as the input modifiers of an override of `a`, with a shorter combination listed before and after it; then random tables of 1-7 entries over non-modifiers {a,b,1,9} with random modifier subsets on both sides, half of them extending/shrinking another entry's combination). For each table, exhaustively every ordered list of distinct keys of length <= 3 (quick) / <= 4 (thorough) over {a,b,1,9,x} + the 8 modifiers, plus targeted lists (each entry's full combination in several orders, with an unrelated key, an extra modifier, a second non-modifier), is passed to Overrides::override_keys and the resulting key set compared with the set-based specification. Pipeline part: random tables, override-release-on-activation alternating yes/no, physically consistent random press/release histories over the keys of the table; after every tick the set of keys the OS holds must equal the specification applied to the keys kanata holds in that tick (Layout::keycodes, plus the key just removed by release-on-activation), kanata's held keys must be consistent with the physical keys, and at the end nothing may be held. Non-trivial = table accepted; distinct = distinct table shape (modifier counts per entry) / pipeline class.".into()
+        "Pure part: one override table per case, written as configuration text and parsed by the real parser (256 seed-independent tables: every subset of the 8 modifiers as the input modifiers of an override of `a`, with a shorter combination listed before and after it; then random tables of 1-7 entries over non-modifiers {a,b,1,9} with random modifier subsets on both sides, half of them extending/shrinking another entry's combination). For each table, exhaustively every ordered list of distinct keys of length <= 3 (quick) / <= 4 (thorough) over {a,b,1,9,x} + the 8 modifiers, plus targeted lists (each entry's full combination in several orders, with an unrelated key, an extra modifier, a second non-modifier), is passed to Overrides::override_keys and the resulting key set compared with the set-based specification. Pipeline part: random tables, override-release-on-activation alternating yes/no, physically consistent random press/release histories over the keys of the table; after every tick the set of keys the OS holds must equal the specification applied to the keys kanata holds in that tick (Layout::keycodes, plus the key just removed by release-on-activation), kanata's held keys must be consistent with the physical keys, and at the end nothing may be held; the histories also contain OS auto-repeat events for held keys: every repeat output must be for a key that is down at the OS, and a repeat of the non-modifier of an active override must be forwarded for one of the override's output keys, never for the replaced key. Non-trivial = table accepted; distinct = distinct table shape (modifier counts per entry) / pipeline class.".into()
     }
     fn assumptions(&self) -> Vec<String> {
         vec![
@@ -680,6 +741,9 @@ impl Check for C13Check {
             ("pipeline_histories_release_on_activation_yes", 500),
             ("pipeline_histories_release_on_activation_no", 500),
             ("pipeline_histories_ending_all_up", 2_000),
+            ("pipeline_repeat_inputs", 10_000),
+            ("pipeline_repeats_during_active_override", 200),
+            ("pipeline_repeats_forwarded_for_override_output", 200),
         ]
     }
     fn exhaustive(&self, _ctx: &Ctx) -> bool {
